@@ -59,6 +59,7 @@ type traceLine struct {
 	ID     int     `json:"id"`
 	Prog   []c01.N `json:"prog"`
 	Follow []c01.N `json:"follow"`
+	Limit  int     `json:"limit"`
 	Full   struct {
 		First  c01.Obs `json:"first"`
 		Second c01.Obs `json:"second"`
@@ -80,15 +81,47 @@ func followUp() []c01.N {
 	}
 }
 
+// recursion builds statements that recurse to depths around the limit through
+// different call forms, catch the RangeError and carry on.
+func recursion(limit, variant int) []c01.N {
+	id, num := c01.Id, c01.Num
+	call := func(d int) c01.N {
+		switch variant % 4 {
+		case 0:
+			return c01.Call(id("rec"), num(d))
+		case 1:
+			return c01.Call(c01.Dot(id("rec"), "call"), c01.Null(), num(d))
+		case 2:
+			return c01.Call(c01.Call(c01.Dot(id("rec"), "bind"), c01.Null()), num(d))
+		default:
+			return c01.Call(c01.Dot(c01.Obj("m", id("rec")), "m"), num(d))
+		}
+	}
+	out := []c01.N{c01.FDecl("rec", []string{"d"}, c01.Expr(c01.Call(id("H"), id("d"))),
+		c01.If(c01.Bin(">", id("d"), num(0)), c01.Return(c01.Bin("+", num(1), c01.Call(id("rec"), c01.Bin("-", id("d"), num(1))))), nil), c01.Return(num(0)))}
+	for _, d := range []int{limit - 3, limit - 2, limit - 1, limit, limit + 2} {
+		if d < 0 {
+			continue
+		}
+		out = append(out, c01.Try([]c01.N{c01.Expr(c01.Call(id("H"), c01.Str("ok"), call(d)))}, "e",
+			[]c01.N{c01.Expr(c01.Call(id("H"), c01.Str("caught"), c01.Bin("instanceof", id("e"), id("RangeError"))))}, true, nil, false))
+	}
+	out = append(out, c01.Expr(call(limit+1))) // uncaught: Run returns the RangeError; the follow-up must still work
+	return out
+}
+
 type runner struct {
 	vm  *otto.Otto
 	log [][]any
 	hs  *hookState
 }
 
-func newRunner(armAt int, payload any) *runner {
+func newRunner(armAt int, payload any, limit int) *runner {
 	r := &runner{}
 	r.vm = c01.NewVM(&r.log)
+	if limit > 0 {
+		r.vm.SetStackDepthLimit(limit)
+	}
 	r.vm.Interrupt = make(chan func(), 1)
 	r.hs = &hookState{armAt: armAt, payload: payload}
 	hooks.Store(r.vm, r.hs)
@@ -156,8 +189,14 @@ func Check(c *core.Ctx) (map[string]any, []string, error) {
 	recs := make([]*rec, nProg)
 	for i := range recs {
 		p := g.Program()
+		limit := 0
+		if i%3 == 2 {
+			// a stack depth limit and a recursion around it (the limit admits exactly limit-1 nested calls)
+			limit = 2 + i%7
+			p = append(p, recursion(limit, i)...)
+		}
 		recs[i] = &rec{src: c01.RenderProgram(p)}
-		recs[i].line.ID, recs[i].line.Prog, recs[i].line.Follow = i+1, p, follow
+		recs[i].line.ID, recs[i].line.Prog, recs[i].line.Follow, recs[i].line.Limit = i+1, p, follow, limit
 	}
 	var wg sync.WaitGroup
 	jobs := make(chan *rec, 64)
@@ -170,7 +209,7 @@ func Check(c *core.Ctx) (map[string]any, []string, error) {
 			for r := range jobs {
 				err := watchdog(func() {
 					// uninterrupted run (hook counts polls), then the follow-up on the same runtime
-					full := newRunner(0, nil)
+					full := newRunner(0, nil, r.line.Limit)
 					o1, p1 := full.run(r.src)
 					if p1 != nil {
 						c.Violate(fmt.Sprintf("Go panic %v escaped Run without any interrupt armed:\n%s", p1, r.src), map[string]any{"source": r.src})
@@ -194,7 +233,7 @@ func Check(c *core.Ctx) (map[string]any, []string, error) {
 					}
 					for _, k := range ks {
 						payload := &payloadT{fmt.Sprintf("halt-%d", k)}
-						rn := newRunner(k, payload)
+						rn := newRunner(k, payload, r.line.Limit)
 						o, p := rn.run(r.src)
 						inj := injection{K: k, Delivered: rn.hs.fired == k, Panicked: p == any(payload), Log: o.Log,
 							Depth: otto.VerifScopeDepth(rn.vm) - restDepth(), Labels: otto.VerifLabelCount(rn.vm)}
